@@ -103,7 +103,25 @@ Theorem C02_caller_eof_complete : forall pol ls s c k t,
 Proof. exact SysC02n.C02_caller_eof_complete. Qed.
 Print Assumptions C02_caller_eof_complete.
 
+(* Q-form for the messages before the trailer: at quiescence (fault-free, empty wires and inboxes) a stream whose loop waits
+   for the next envelope has handed to RecvMsg EVERY message the server's writer accepted under its id *)
+Theorem C02_caller_msgs_complete : forall pol ls s c k,
+  Sys.lrun pol Sys.init ls = Some s -> fault_free ls = true ->
+  Sys.quiescent s = true -> Server.inbox (sv s) = [] -> Client.inbox (cl s) = [] ->
+  nth_error (calls (cl s)) c = Some k -> k_unary k = false -> k_pc k = POpen ->
+  (s_loop k = LRead -> msgs c (Client.log (cl s)) = pb (accepted (k_id k) (sv s))) /\
+  (forall b, s_loop k = LHand b -> is_prefix (msgs c (Client.log (cl s)) ++ handpart k) (pb (accepted (k_id k) (sv s)))).
+Proof. exact SysC02n.C02_caller_msgs_complete. Qed.
+Print Assumptions C02_caller_msgs_complete.
+
 (* the step lemmas tying the arguments of the API calls to the envelopes *)
+Theorem C02_link_send_reach : forall ls s c k b rest s',
+  Client.lrun Client.init ls = Some s -> nth_error (calls s) c = Some k -> s_sendq k = Some b :: rest -> r_send c s = Some s' ->
+  (exists e, Client.log s' = Client.log s ++ [EvSendRet c (Some e)]) \/
+  Client.log s' = Client.log s ++ [EvWrite (body_env (k_id k) b); EvSendRet c None].
+Proof. exact SysC02n.C02_link_send_reach. Qed.
+Print Assumptions C02_link_send_reach.
+
 Theorem C02_link_send : forall s c k b rest s', nth_error (calls s) c = Some k -> s_sendq k = Some b :: rest -> r_send c s = Some s' ->
   (exists e, Client.log s' = Client.log s ++ [EvSendRet c (Some e)]) \/
   (s_done k = true /\ s_rerr k = None /\ Client.log s' = Client.log s ++ [EvSendRet c None]) \/
